@@ -269,6 +269,9 @@ func runFanScenario(sc fanScenario) fanResult {
 	case <-time.After(10 * time.Second):
 		res.note += "close-timeout"
 	}
+	if len(fconn.snapshotWrites()) > 0 {
+		res.note += "foreign-node-received-writes" // a channel of another node was named: nothing may be written anywhere for it
+	}
 	fn.Close()
 	select {
 	case <-consDone:
